@@ -2,10 +2,10 @@
 working tree whose container packages import the scheduling shim instead of sync."""
 import os, shutil, subprocess, tempfile, time
 
-PKGS = "heap,bstree,trie,queue,stack,cache"
+PKGS = "heap,bstree,trie,queue,stack,cache,list"
 
 
-def build_shimmed(drv, repo):
+def build_shimmed(drv, repo, out_name="C02.test"):
     """Returns the path of the test binary or None."""
     scratch = tempfile.mkdtemp(prefix="c02-scratch-", dir="/tmp")
     try:
@@ -21,7 +21,7 @@ def build_shimmed(drv, repo):
             drv.say("BUILD-FAILED property=C02 (rewrite)\n" + p.stdout)
             return None
         mod, tag = drv.alt_modfile(dst)
-        out = os.path.join(drv.BUILD, "C02.test")
+        out = os.path.join(drv.BUILD, out_name)
         cmd = [drv.GO, "test", "-c", "-tags", "verif c02shim", "-vet=off", "-modfile", mod, "-o", out, "./conc/lin"]
         p = subprocess.run(cmd, cwd=drv.HARNESS, env=drv.goenv(), stdout=subprocess.PIPE, stderr=subprocess.STDOUT, text=True)
         for ext in (".mod", ".sum"):
